@@ -176,7 +176,7 @@ ENUM_GROUPS = {
             _t('remapper_consistency', ['C06'], 'remapper_a maps every class name to its counterpart or leaves it unchanged and rewrites field/array/method/return descriptors and array class names exactly at the class names; remapper_b answers a field/method with the declaration of the owner, else of the first declaring super type in depth-first declaration order, else the unchanged name with remapped descriptor, for every (from,to) including from != first; X->Y->X is the identity on classes, descriptors and declared members named in both namespaces.',
                'all 5^4=625 sets over (s,a,b) with keys A,B,C,D, each absent / named bare / named with field (LA;,f) and method ((LA;)[LB;,m) / class unnamed in a / members unnamed in a (member names carry the declaring class) x 6 ordered namespace pairs x 4 inheritance relations (none, chain D<C<B<A, diamond D<[B,C]<A, D<[C,B] with C<A) = 15000 remappers; per remapper 32 member queries (owners A..D x {f spellings, m spellings, undeclared zz}), 480000 in total; per (set,from,to) 18 class names (every spelling of A..D in any column, Z, java/lang/Object) x 5 descriptor forms. Excluded as deviation: 229474 queries whose search passes through a class not named in both from and to (weaker check applied).', timeout=300),
             _t('remove_dummy_rules', ['C10'], 'Mappings::remove_dummy removes exactly the entries named by the documented rules (p_ parameter without comment; f_ field without comment; m_/<init>/<clinit> method without comment and without remaining parameter; C_ or net/minecraft/unmapped/C_ class without comment and without remaining member), judged only in the given namespace, leaves everything else identical and is idempotent.',
-               '2 namespaces, namespace a: 841 sets with key A: class name C_1 / net/minecraft/unmapped/C_2 / p/C_3 / Real / absent x comment none/c x field absent/f_1/g/f_1+comment/xf_1/unnamed x 14 method variants (absent, m_1, <init>, <clinit>, run, xm_1, m_1+comment, m_1 with parameter p_1 / arg / p_1+comment / p_1 and xp_1, run with p_1, <init> with unnamed parameter, unnamed method with p_1), alone and next to a second class B named C_9 with a field; 3 namespaces (s,a,b): the same 841 sets with placeholders in a and ordinary names in b, filtered by a and by b; 3364 cases. Mapping side only (the diff-side counterpart insert_dummy_and_contract_inner_names is not covered).', timeout=300),
+               '2 namespaces, namespace a: 961 sets with key A: class name C_1 / net/minecraft/unmapped/C_2 / p/C_3 / Real / absent x comment none/c x field absent/f_1/g/f_1+comment/xf_1/unnamed x 16 method variants (absent, m_1, <init>, <clinit>, run, xm_1, m_1+comment, m_1 with parameter p_1 / arg / p_1+comment / p_1 and xp_1, run with p_1, <init> with unnamed parameter, unnamed method with p_1, commented m_1 with p_1, commented run with p_1 and arg), alone and next to a second class B named C_9 with a field; 3 namespaces (s,a,b): the same 961 sets with placeholders in a and ordinary names in b, filtered by a and by b; 3844 cases. Mapping side only (the diff-side counterpart insert_dummy_and_contract_inner_names is not covered).', timeout=300),
             _t('diff_apply_keeps_parameter_source_names', ['C04'], 'apply_to(A, diff(A,B)) is B or a refusal also when A and B differ in a parameter source name (the .tinydiff format has no column for it)',
                'method ()V m of class A with parameter 0 absent / without source name / source name x / source name y on either side: 16 ordered pairs'),
             _t('unchanged_names_are_declarations_too', ['C06'], 'a member declared with the same name in both namespaces answers the query and hides a renamed declaration of a farther super type (nearest declaration in declaration order, depth first)',
